@@ -228,3 +228,48 @@ NEUTRAL += [
     {"id": "n-hint-test-swapped", "props": ["C04"],
      "edits": [(B, "    if ((qr_hints & QueryResponseHintsMask::client_port) && gr.client_port) {", "    if (gr.client_port && (QueryResponseHintsMask::client_port & qr_hints) != 0) {")]},
 ]
+
+MUTANTS += [
+    # ---------------------------------------------------------------- C11
+    m("c11-eq-missing", "C11", "R11.1", [(BH, "            return (name_index == rhs.name_index) && (classtype_index == rhs.classtype_index) &&\n                   (ttl == rhs.ttl) && (rdata_index == rhs.rdata_index);", "            return (name_index == rhs.name_index) && (classtype_index == rhs.classtype_index) &&\n                   (ttl == rhs.ttl);")],
+      "RR::operator== ignores rdata_index"),
+    m("c11-hash-extra", "C11", "R11.1", [(BH, "            hash = hash_value(aec.ae_address_index, hash);\n", "            hash = hash_value(aec.ae_address_index, hash);\n            hash = hash_value(aec.ae_count, hash);\n"),
+                                          (BH, "                   (ae_address_index == rhs.ae_address_index) &&\n                   (ae_count == rhs.ae_count);", "                   (ae_address_index == rhs.ae_address_index);")],
+      "AddressEventCount hash reads ae_count, which equality no longer compares"),
+    m("c11-revert-f10", "C11", "R11.2", [(BH, "                hash = hash_value(mmd.mm_payload.value().data(), mmd.mm_payload.value().size(), hash);", "                hash = hash_value(mmd.mm_payload.value(), hash);")],
+      "payload hashed through the raw bytes of the std::string object (reverted F10)"),
+    m("c11-clear-rr", "C11", "R11.5", [(BH, "            m_rrlist.clear();\n            m_rr.clear();", "            m_rrlist.clear();")], "CdnsBlock::clear forgets m_rr"),
+    m("c11-clear-index", "C11", "R11.3", [(BT, "            items_.clear();\n            indexes_.clear();", "            items_.clear();")], "BlockTable::clear keeps the reverse index"),
+    m("c11-vector-store", "C11", "R11.3", [(BT, "        std::deque<T> items_;", "        std::vector<T> items_;"), (BT, "        typename std::deque<T>::size_type size() const", "        typename std::vector<T>::size_type size() const"),
+                                            (BT, "        typename std::deque<T>::iterator begin()", "        typename std::vector<T>::iterator begin()"), (BT, "        typename std::deque<T>::iterator end()", "        typename std::vector<T>::iterator end()"),
+                                            (BT, "#include <deque>", "#include <deque>\n#include <vector>")],
+      "value store is a vector: references held by the index dangle on growth"),
+    m("c11-keyref-local", "C11", "R11.3", [(BT, "        CDNS::index_t add_value(const T& val)\n        {\n            items_.push_back(val);\n            return record_last_key();", "        CDNS::index_t add_value(const T& val)\n        {\n            items_.push_back(val);\n            CDNS::index_t res = items_.size() - 1;\n            indexes_[KeyRef<K>(val.key())] = res;\n            return res;")],
+      "index references the caller's argument instead of the stored element", expect_broken=False),
+    m("c11-unchecked-index", "C11", "R11.3", [(BT, "            if ( pos < items_.size() )\n                return items_[pos];\n            \n            throw std::runtime_error(\"Block index out of range\");", "            return items_[pos];")], "unchecked operator[]"),
+    m("c11-wrapper-layout", "C11", "R11.4", [(BH, "        std::string data;\n    };", "        uint32_t flags = 0;\n        std::string data;\n    };")], "StringItem gets a second member: reinterpret_cast lookups read foreign memory"),
+    # ---------------------------------------------------------------- C19
+    m("c19-revert-f15", "C19", "R19.1", [(BT, "        BlockTable(const BlockTable& other) : items_(other.items_)\n        {\n            rebuild_indexes();\n        }", "        BlockTable(const BlockTable& other) = default;"),
+                                          (BT, "        BlockTable& operator=(const BlockTable& other)\n        {\n            if ( this != &other )\n            {\n                indexes_.clear();\n                items_ = other.items_;\n                rebuild_indexes();\n            }\n            return *this;\n        }", "        BlockTable& operator=(const BlockTable& other) = default;")],
+      "BlockTable copies its reverse index verbatim (reverted F15)"),
+    m("c19-copy-index", "C19", "R19.1", [(BT, "                indexes_.clear();\n                items_ = other.items_;\n                rebuild_indexes();", "                items_ = other.items_;\n                indexes_ = other.indexes_;")],
+      "copy assignment copies the index from the source"),
+    m("c19-missing-member", "C19", "R19.2", [(BH, "                this->m_rrlist = rhs.m_rrlist;\n", "")], "CdnsBlock::operator= forgets m_rrlist"),
+    m("c19-cursor-from-rhs", "C19", "R19.2", [(BH, "                this->m_aec_read = this->m_address_event_counts.begin();\n                this->m_mm_read = 0;\n            }\n\n            return *this;", "                this->m_aec_read = rhs.m_address_event_counts.begin();\n                this->m_mm_read = 0;\n            }\n\n            return *this;")],
+      "CdnsBlockRead copy iterates the source's address-event map"),
+    m("c19-default-move", "C19", "R19.3", [(BH, "        CdnsBlock(CdnsBlock&& copy) {\n            *this = copy;\n        }", "        CdnsBlock(CdnsBlock&& copy) = default;")], "defaulted move constructor bypasses the assignment"),
+    # ---------------------------------------------------------------- C20
+    m("c20-static-buffer", "C20", "R20.1", [(IF, "    char addrBuf[buflen];", "    static char addrBuf[INET6_ADDRSTRLEN + 4];")], "static scratch buffer in the address renderer"),
+    m("c20-global-cache", "C20", "R20.1", [(IF, "static std::string get_readable_dname(std::string& wire_dname)\n{", "static std::string g_last_rendered;\n\nstatic std::string get_readable_dname(std::string& wire_dname)\n{\n    g_last_rendered = wire_dname;")],
+      "namespace-scope mutable cache written by a renderer"),
+    m("c20-inet-ntoa", "C20", "R20.2", [(IF, "    auto ret = inet_ntop(ipv, wire_ip.data(), addrBuf, sizeof(addrBuf));\n\n    if (!ret)\n        return wire_ip;", "    auto ret = inet_ntop(ipv, wire_ip.data(), addrBuf, sizeof(addrBuf));\n\n    if (!ret)\n        return wire_ip;\n    if (!ipv6 && wire_ip.size() == 4) {\n        struct in_addr a4;\n        memcpy(&a4, wire_ip.data(), 4);\n        return std::string(inet_ntoa(a4));\n    }")],
+      "inet_ntoa (static buffer) used for IPv4"),
+    m("c20-static-counter", "C20", "R20.1", [(EN, "void CDNS::CdnsEncoder::flush_buffer()\n{", "void CDNS::CdnsEncoder::flush_buffer()\n{\n    static std::size_t flushes = 0;\n    flushes++;")], "function-local static counter in flush_buffer"),
+]
+
+NEUTRAL += [
+    {"id": "n-items-index", "props": ["C11", "C19"],
+     "edits": [(BT, "            indexes_[KeyRef<K>(items_.back().key())] = res;", "            indexes_[KeyRef<K>(items_[res].key())] = res;")]},
+    {"id": "n-const-table", "props": ["C20"],
+     "edits": [(IF, "static std::string get_readable_dname(std::string& wire_dname)\n{", "static const char kDot = '.';\n\nstatic std::string get_readable_dname(std::string& wire_dname)\n{\n    (void)kDot;")]},
+]
